@@ -1,7 +1,7 @@
 (* C13 — Reusable objects never leak state between uses.  Property theorems only.
    Each caching object is a refinement of the cache-free reference machine of Spec/Reuse.v
    ("recompute from the arguments of the call and the settings in force"), for ALL histories. *)
-From TV Require Import Spec.Reuse Proofs.Reuse.
+From TV Require Import Spec.Reuse Proofs.Reuse Proofs.ReuseIndep.
 
 (* font.Face: for every history of SetCoords / SetVariations / SetPpem / GlyphExtents on a new face,
    every GlyphExtents answer is the raw (uncached) extents at the coordinates and ppem in force.
@@ -67,6 +67,23 @@ Theorem lru_shrinks_on_next_insert :
     <= Z.max 0 (ShaperCache.max_size hbfont l).
 Proof. exact lru_shrinks_on_insert_lemma. Qed.
 Print Assumptions lru_shrinks_on_next_insert.
+
+(* stated without the reference machine: two histories of one shaper type that make the same Shape calls in the same
+   order hand the same fonts to the engine, whatever SetFontCacheSize calls (how many, where, which sizes, also
+   zero and negative) either of them contains *)
+Theorem shaper_cache_sizes_irrelevant :
+  forall (hbfont : Type) (mk : Z -> hbfont) (ops ops' : list ShaperCache.op),
+    filter is_shape ops = filter is_shape ops' ->
+    ShaperCache.run hbfont mk (ShaperCache.lru_init hbfont) ops = ShaperCache.run hbfont mk (ShaperCache.lru_init hbfont) ops'.
+Proof. exact shaper_sizes_irrelevant_lemma. Qed.
+Print Assumptions shaper_cache_sizes_irrelevant.
+
+(* a Shape call is served with the font of its own face after ANY history (no leak from earlier inputs) *)
+Theorem shape_history_free :
+  forall (hbfont : Type) (mk : Z -> hbfont) (pre : list ShaperCache.op) (f : Z),
+    exists front, ShaperCache.run hbfont mk (ShaperCache.lru_init hbfont) (pre ++ [ShaperCache.Shape f]) = front ++ [mk f].
+Proof. exact shape_history_free_lemma. Qed.
+Print Assumptions shape_history_free.
 
 (* harfbuzz.Buffer plan cache: for every history of Shape calls (any faces, properties, features) interleaved with
    coordinate changes of the faces, the plan executed is the plan freshly compiled from the call's arguments and the
@@ -198,3 +215,11 @@ Theorem itemizer_history_independent :
     TV.Model.Itemize.split_runs e s x = TV.Model.Itemize.split_runs e TV.Model.Itemize.seg_zero x.
 Proof. exact TV.Proofs.Itemize.state_independent_lemma. Qed.
 Print Assumptions itemizer_history_independent.
+
+(* non-vacuity of shaper_cache_sizes_irrelevant: histories with different cache operations and evictions in between *)
+Example sizes_irrelevant_example :
+  let a := [ShaperCache.SetFontCacheSize 1; ShaperCache.Shape 3; ShaperCache.Shape 4; ShaperCache.Shape 3] in
+  let b := [ShaperCache.Shape 3; ShaperCache.SetFontCacheSize 0; ShaperCache.Shape 4; ShaperCache.SetFontCacheSize (-2); ShaperCache.Shape 3] in
+  filter is_shape a = filter is_shape b /\
+  ShaperCache.run Z (fun f => 10 * f) (ShaperCache.lru_init Z) b = [30; 40; 30].
+Proof. split; reflexivity. Qed.
